@@ -30,7 +30,7 @@ PROPS = {
     },
     "C06": {
         "stages": [{"kind": "oracle", "bin": "num"}],
-        "rule": "floats (f32, f64): every call of mean / weighted_sum / weighted_mean / weighted_sum_axis / weighted_mean_axis / harmonic_mean / geometric_mean is logged (operand and result bit patterns in logical order) and judged offline: the exact value is recomputed with fractions.Fraction (ln via 60-digit decimal) and |result - exact| <= 4 x the a-priori forward error bound of %s (gamma_k * sum|terms|); harmonic mean judged in the reciprocal domain, geometric mean in the log domain; per-axis results are judged lane by lane (lane extracted by the harness's own index arithmetic) together with the whole-array routine applied to an owned copy of that lane. Data and weights always have DIFFERENT zoo layouts (pairing by logical index). Integers (i32, i64, in-process): exact i128 reference, the type's truncating division, per-axis element == exact lane value == whole-array routine on the lane. Data classes: uniform, cancelling signs, common offset 1e0..1e12, mixed magnitudes 1e+-8, positive, small integers, constant, large mean; weights: unit, random, 12 decades, with zeros. distinct = hash of (type, shape, axis, both layouts, data bits, weight bits); non-trivial = >= 2 elements." % "DESIGN.md section 4",
+        "rule": "floats (f32, f64): every call of mean / weighted_sum / weighted_mean / weighted_sum_axis / weighted_mean_axis / harmonic_mean / geometric_mean is logged (operand and result bit patterns in logical order) and judged offline: the exact value is recomputed with fractions.Fraction (ln via 60-digit decimal) and |result - exact| <= 4 x the a-priori forward error bound of %s (gamma_k * sum|terms|); harmonic mean judged in the reciprocal domain, geometric mean in the log domain; per-axis results are judged lane by lane (lane extracted by the harness's own index arithmetic) together with the whole-array routine applied to an owned copy of that lane. Data and weights always have DIFFERENT zoo layouts (pairing by logical index). Integers (i32, i64, in-process): exact i128 reference, the type's truncating division, per-axis element == exact lane value == whole-array routine on the lane. Data classes: uniform, cancelling signs, common offset 1e0..1e12, mixed magnitudes 1e+-8, positive, small integers, constant, large mean, mean of order one with spread 2^-30..2^-45, positive data within one decade around 10^e (|e| <= 100); per-axis records also carry the whole-array routine applied to the lane VIEW as it lies in the array; weights: unit, random, 12 decades, with zeros. distinct = hash of (type, shape, axis, both layouts, data bits, weight bits); non-trivial = >= 2 elements." % "DESIGN.md section 4",
         "exhaustive": False,
         "assumptions": COMMON_ASSUME + ["a fault whose effect is below the stated tolerance is indistinguishable from roundoff and is not reported", "no intermediate underflow/overflow (generators keep magnitudes away from the exponent limits)"],
     },
@@ -42,19 +42,19 @@ PROPS = {
     },
     "C08": {
         "stages": [{"kind": "oracle", "bin": "num"}],
-        "rule": "cov(ddof) and pearson_correlation on 1..8 variables x 2..65 observations (f32, f64; C / F / random zoo layouts; uniform, offset, mixed-magnitude, integer, large-mean and linearly dependent rows; ddof in {0, 1, 1/2, o-3/4}) are logged and judged offline entry by entry against the exact rational definition with the bound 4[(o+6)u sum(|xi-mi|+di)(|xj-mj|+dj) + o di dj]/(o-ddof); symmetry within 2 tol; diagonal >= -tol; correlation against cov/(sigma_i sigma_j) in 60-digit decimals with the propagated bound, diagonal 1 and |rho| <= 1 up to that bound; invariance under an EXACT positive affine rescaling (dyadic factor, integer-grid data) and sign flip under exact negation of one variable. distinct = hash of (type, shape, layout, data bits).",
+        "rule": "cov(ddof) and pearson_correlation on 1..8 variables x 2..65 observations (f32, f64; C / F / random zoo layouts; uniform, offset, mixed-magnitude, integer, large-mean and linearly dependent rows; a quarter of the matrices rescaled per variable by 10^s, |s| <= 120 (f32: 14); ddof in {0, 1, 1/2, o-3/4}) are logged and judged offline entry by entry against the exact rational definition with the bound 4[(o+6)u sum(|xi-mi|+di)(|xj-mj|+dj) + o di dj]/(o-ddof); symmetry within 2 tol; diagonal >= -tol; correlation against cov/(sigma_i sigma_j) in 60-digit decimals with the propagated bound, diagonal 1 and |rho| <= 1 up to that bound; invariance under an EXACT positive affine rescaling (dyadic factor, integer-grid data) and sign flip under exact negation of one variable. distinct = hash of (type, shape, layout, data bits).",
         "exhaustive": False,
         "assumptions": COMMON_ASSUME + ["correlation entries are judged only for non-degenerate variables (variance > 4 x its own error bound)"],
     },
     "C09": {
         "stages": [{"kind": "oracle", "bin": "num"}],
-        "rule": "integers (i8, i16, i32, i64, i128, num-bigint BigInt; in-process): count_eq / count_neq / sq_l2_dist / l1_dist / linf_dist equal the exact i128 values (cases whose exact distance does not fit the type are skipped and counted), exactly symmetric, zero for identical arguments, derived measures equal the documented f64 function of the exact distance; operands in 4 memory layouts each (C, F, reversed, stepped). Floats (f32, f64; logged, judged offline): sq_l2 / l1 within gamma_k * sum|terms|, linf EXACTLY the max of the correctly rounded |a-b|, l2 / mae / mse / rmse within 2 ulp of the documented function of the RETURNED distance, PSNR within 8u|r| + 40u/ln10, symmetry with swapped operands, counts exact; every pairing of 8 zoo layouts for the two operands and 5 ownership pairings (view/view, owned/view, ArcArray/view, CowArray/owned, ViewMut/ArcArray); shapes of 1..4 dims. distinct = hash of (type, shape, layout pair, ownership, data).",
+        "rule": "integers (i8, i16, i32, i64, i128, num-bigint BigInt; in-process): count_eq / count_neq / sq_l2_dist / l1_dist / linf_dist equal the exact i128 values (cases whose exact distance does not fit the type are skipped and counted), exactly symmetric, zero for identical arguments, derived measures equal the documented f64 function of the exact distance; operands in 4 memory layouts each (C, F, reversed, stepped). Floats (f32, f64; logged, judged offline): sq_l2 / l1 within gamma_k * sum|terms|, linf EXACTLY the max of the correctly rounded |a-b|, l2 / mae / mse / rmse within 2 ulp of the documented function of the RETURNED distance, PSNR within 8u|r| + 40u/ln10, symmetry with swapped operands, counts exact, also for pairs carrying NaNs (NaN equals nothing) and for an array compared WITH ITSELF (same buffer); every pairing of 8 zoo layouts for the two operands and 5 ownership pairings (view/view, owned/view, ArcArray/view, CowArray/owned, ViewMut/ArcArray); shapes of 1..4 dims. distinct = hash of (type, shape, layout pair, ownership, data).",
         "exhaustive": False,
         "assumptions": COMMON_ASSUME,
     },
     "C10": {
         "stages": [{"kind": "oracle", "bin": "num"}],
-        "rule": "entropy / cross_entropy / kl_divergence on f32 and f64 arrays of 1..3 dims (p and q in different zoo layouts, q owned or view) are logged and judged offline: terms -x ln x, -p ln q, -p ln(q/p) in 60-digit decimals, zero-p terms exactly zero (even against NaN in q), tol = 4[(n+8)u sum|t_i| + 4u sum|p_i|]; q = 0 with p > 0 => +inf; NaN in a contributing term => NaN; KL(p,p) == 0 exactly; |H(p,q) - H(p) - KL(p,q)| <= sum of tolerances; KL >= P ln(P/Q) - tol and H <= -X ln(X/n) + tol (log-sum inequality). Values in [1e-30, 1e3] (f32: [1e-20, 1e3]), zeros in p / q / both, normalised and unnormalised, q ~ p. distinct = hash of (type, shape, layouts, p bits, q bits).",
+        "rule": "entropy / cross_entropy / kl_divergence on f32 and f64 arrays of 1..3 dims (p and q in different zoo layouts, q owned or view) are logged and judged offline: terms -x ln x, -p ln q, -p ln(q/p) in 60-digit decimals, zero-p terms exactly zero (even against NaN in q), tol = 4[(n+8)u sum|t_i| + 4u sum|p_i|]; q = 0 with p > 0 => +inf; NaN in a contributing term => NaN; KL(p,p) == 0 exactly; |H(p,q) - H(p) - KL(p,q)| <= sum of tolerances; KL >= P ln(P/Q) - tol and H <= -X ln(X/n) + tol (log-sum inequality). Values in [1e-30, 1e3] (f32: [1e-20, 1e3]), zeros in p / q / both, normalised and unnormalised, q ~ p; positive SUBNORMAL p_i against q_i = 0 (must still give +inf); quotients q_i/p_i outside the exponent range (known finding F9, classified by the oracle's predicate). distinct = hash of (type, shape, layouts, p bits, q bits).",
         "exhaustive": False,
         "assumptions": COMMON_ASSUME + ["ln of the platform libm is accurate to about 1 ulp (covered by the safety factor 4)"],
     },
